@@ -119,6 +119,19 @@ Section Sound.
     intros c s H. unfold C04Transcript.server_res_ok in H. apply andb_true_iff in H. destruct H as [H _].
     apply resumed_client_binds in H. destruct H as (A & B & _). auto.
   Qed.
+
+  (* A: a server that negotiates from the SECOND ClientHello negotiates from what the client sent,
+     whenever the client completes (whatever was done to the first ClientHello) *)
+  Theorem negotiation_input_bound :
+    forall chk c s ch1, v_tr_cke c <> [] -> v_tr_cke s <> [] ->
+      client_full_ok chk c s = true ->
+      server_neg_input term true ch1 s = hd ch1 (v_tr_cke c).
+  Proof.
+    intros chk c s ch1 Hc Hs H. apply finished_binds_transcript in H. destruct H as [H _].
+    unfold C04Transcript.tr_fin in H. unfold server_neg_input.
+    destruct (v_tr_cke c) as [|a la]; [contradiction|]. destruct (v_tr_cke s) as [|b lb]; [contradiction|].
+    cbn in *. injection H as H _. congruence.
+  Qed.
 End Sound.
 
 (* PSK suites: the pre-master secret is built from the pre-shared key (prf.PSKPreMasterSecret,
@@ -205,6 +218,33 @@ Theorem f5_witness_stopped :
   (let cv v := mk_view (v_tr_cke v) (v_tr_cv v) (v_cr v) (v_sr v) (v_pms v) (v_ems v) true in
    s_server_full_ok false (cv f5_client_view) (cv f5_server_view) = false).
 Proof. repeat split; vm_compute; reflexivity. Qed.
+
+(* A, before the repair: both endpoints complete, transcripts and keys agree - and the server negotiated
+   from a first ClientHello that differs from everything the client ever sent *)
+Definition a_view : view sterm :=
+  mk_view [SAtom 1; SAtom 2; SAtom 3; SAtom 4] [] (SAtom 10) (SAtom 11) (SSecret 1) true false.
+
+Theorem negotiation_from_first_hello_refuted :
+  exists (c s : view sterm) (ch1_received : sterm),
+    s_client_full_ok true c s = true /\ s_server_full_ok true c s = true /\ v_tr_cke c = v_tr_cke s /\
+    server_neg_input sterm false ch1_received s <> hd ch1_received (v_tr_cke c) /\
+    server_neg_input sterm true ch1_received s = hd ch1_received (v_tr_cke c).
+Proof.
+  exists a_view, a_view, (SAtom 999). repeat split; try reflexivity. intros H. discriminate H.
+Qed.
+
+Theorem negotiation_input_as_coded :
+  if server12_negotiates_from_second_hello
+  then forall chk c s ch1, v_tr_cke c <> [] -> v_tr_cke s <> [] -> s_client_full_ok chk c s = true ->
+         server_neg_input sterm server12_negotiates_from_second_hello ch1 s = hd ch1 (v_tr_cke c)
+  else exists (c s : view sterm) ch1, s_client_full_ok true c s = true /\ s_server_full_ok true c s = true /\
+         server_neg_input sterm server12_negotiates_from_second_hello ch1 s <> hd ch1 (v_tr_cke c).
+Proof.
+  destruct server12_negotiates_from_second_hello.
+  - intros chk c s ch1 Hc Hs H.
+    exact (negotiation_input_bound sterm SPrf SPair shash SFin sterm_eqb SPrf_inj shash_inj sterm_eqb_spec chk c s ch1 Hc Hs H).
+  - exists a_view, a_view, (SAtom 999). repeat split; try reflexivity. intros H. discriminate H.
+Qed.
 
 (* the statement that holds of the code as modelled, whichever way the F5 switch
    (Hs/C03Auth.server12_checks_client_finished) is set *)
